@@ -36,10 +36,6 @@ def const_eval(ck: Checker, scope, e: ast.expr, depth=0) -> Optional[int]:
 
 
 def check(ck: Checker) -> None:
-    from . import round4 as _r4
-
-    _r4.text_ratio_exact(ck, "C14.ratio")
-    _r4.hash_file_digest_sources(ck, "C14.select")
     ck.decided = [
         "C14.passthrough: every read() of the hashing streams returns exactly what the wrapped file returned, feeds the hasher exactly once per read with that chunk (or its normalisation) and advances the byte counter by the length of what was hashed",
         "C14.driver: the chunked driver leaves its loop only on an empty read and takes the digest from the same stream",
@@ -59,6 +55,11 @@ def check(ck: Checker) -> None:
     _driver(ck)
     _select(ck)
     _nul(ck)
+    from . import round4 as _r4
+
+    _r4.text_ratio_exact(ck, "C14.ratio")
+    _r4.hash_file_digest_sources(ck, "C14.select")
+
 
 
 def _read(ck: Checker, rd: Func) -> None:
